@@ -74,6 +74,8 @@ def units(tier, seed):
         for rhs in rhss:
             u.append([{"n": n, "rhs": rhs}])
     u.append([{"invalid": True}])
+    for n in (NS if tier == "quick" else [7, 10, 13, 16, 25]):
+        u.append([{"reuse": True, "n": n}])
     return u
 
 
@@ -104,8 +106,56 @@ def same_pred(a, b):
     return True
 
 
+def resp_view(dm):
+    R = dm.response
+    if R is None:
+        return None
+    return (np.array(R.design_matrix), R.kind, None if R.levels is None else list(R.levels), R.name, list(R.as_dataframe().columns))
+
+
+def check_reuse(case, acc):
+    """One model description evaluated on a first frame, then on a frame where another set of response levels occurs: the
+    response of the second design is the response of a fresh design on that frame."""
+    from formulae import design_matrices, model_description
+    from formulae.matrices import DesignMatrices
+    from formulae.environment import Environment
+
+    df1 = frame(case["n"])
+    problems = []
+    for r in RESP:
+        f = f"{r['text']} ~ x"
+        df2 = frame(case["n"] + 3).iloc[::-1].reset_index(drop=True)
+        col = r.get("col")
+        if col is not None:
+            gone = [l for l in sorted(set(df2[col].astype(str))) if l != r.get("level")][0]
+            df2 = df2[df2[col].astype(str) != gone].reset_index(drop=True)
+        acc.calls += 3
+        acc.traces += 1
+        try:
+            desc = model_description(f)
+            env = Environment.capture(0)
+            DesignMatrices(desc, df1, env)
+            second = resp_view(DesignMatrices(desc, df2, env))
+        except Exception as e:
+            problems.append(f"{f!r}: one description evaluated on two frames raised {type(e).__name__}: {e}")
+            continue
+        fresh = resp_view(design_matrices(f, df2))
+        same = all((np.array_equal(a, b) if isinstance(a, np.ndarray) else a == b) for a, b in zip(second, fresh)) and second[0].shape == fresh[0].shape
+        if not same:
+            problems.append(f"{f!r}: the response of the second design built from one description (levels {second[2]}, shape {second[0].shape}) is not the response of a fresh design on that frame (levels {fresh[2]}, shape {fresh[0].shape})")
+    acc.subcases(case, len(RESP) - 1, True, "response-forms")
+    if problems:
+        acc.case(case, "MISMATCH")
+        acc.violation("response-of-the-frame-evaluated", "mismatch", case, "; ".join(problems[:3]))
+    else:
+        acc.case(case, "ok", nontrivial=True)
+
+
 def check_case(case, acc):
     from fmc.core import exc_sig
+
+    if case.get("reuse"):
+        return check_reuse(case, acc)
 
     if case.get("invalid"):
         problems = []
